@@ -310,12 +310,13 @@ TRACE_INVARIANTS = ["Inv_C01", "Inv_C02", "Inv_C03", "Inv_C09", "Inv_C10", "Inv_
 LINE_RE = re.compile(r'^<<"(VIOL|DRIFT|SUMMARY|STUCK)", "(.*)">>$')
 
 
-def validate_one(trace_path, workdir, module="TraceCore", timeout=1200):
+def validate_one(trace_path, workdir, module="TraceCore", timeout=1200, cfg_constants=None, invariants=None):
     trace_path = os.path.abspath(trace_path)
     workdir = os.path.abspath(workdir)
     cfg = os.path.join(workdir, module + ".cfg")
     if not os.path.exists(cfg):
-        write_cfg(cfg, "TraceSpec", TRACE_CFG_CONSTANTS, invariants=TRACE_INVARIANTS, postcondition="TraceAccepted")
+        write_cfg(cfg, "TraceSpec", cfg_constants or TRACE_CFG_CONSTANTS, invariants=invariants or TRACE_INVARIANTS,
+                  postcondition="TraceAccepted")
     rc, out = run_tlc(module, cfg, workdir, workers=1, timeout=timeout, env={"TRACE": trace_path},
                       extra=())
     res = {"trace": trace_path, "viol": [], "drift": [], "summary": None, "stuck": None, "error": None, "events": 0}
